@@ -18,6 +18,9 @@ PROGRESS = ('link_established', 'connected', 'fully_connected')
 
 
 def _device(cfg):
+    if cfg.get('unsol'):
+        params = [simcf.ParamVar('ga', 'y', 0x08, 1), simcf.ParamVar('ga', 'z', 0x09, 2), simcf.ParamVar('gb', 'y', 0x06, 3.5)]
+        return simcf.SimCF(protocol=cfg['proto'], log=(), params=params)
     return cfh.small_device(protocol=cfg['proto'], versioning=cfg.get('versioning', True), nlog=cfg.get('nlog', 1),
                             nparam=cfg.get('nparam', 2), mems=cfg.get('mems', 0))
 
@@ -50,6 +53,8 @@ def exec_c02(cfg, devs):
     ex.env.hello = bool(cfg.get('hello'))
     ex.s.eager_start = bool(cfg.get('eager'))
     ex.env.on_rx = lambda idx: ex.log('rx', idx)
+    if cfg.get('retry'):
+        ex.env.on_rx_wait = lambda idx: ex.log('rxwait', idx)
     info = {}
 
     def main():
@@ -67,6 +72,17 @@ def exec_c02(cfg, devs):
             ex.log('reg', getattr(cb, '__qualname__', repr(cb))[:40], vsched._v_current_thread_name())
             return orig_add(cb, port, channel, port_mask, channel_mask)
         cf.incoming.add_header_callback = logged_add
+        if cfg.get('retry'):
+            orig_err = cf._link_error_cb
+
+            def logged_err(errmsg):
+                me = vsched._v_current_thread_name()
+                ex.log('errpath_begin', me)
+                try:
+                    return orig_err(errmsg)
+                finally:
+                    ex.log('errpath_end', me)
+            cf._link_error_cb = logged_err
 
         def on_connected(uri):
             lg = cfh.toc_fingerprint(cf.log.toc) if cf.log.toc is not None else None
@@ -88,6 +104,13 @@ def exec_c02(cfg, devs):
             s.spawn(None, fault_body, name='env-driver-fault', lazy=False)
             # let it park itself as lazy before anything else happens (no choice: single option)
 
+        if cfg.get('unsol'):
+            def unsol_body():
+                s.lazy_point('env.value_updated')
+                if ex.env.links and not ex.env.links[-1].closed and not ex.frozen:
+                    dev.params[2].value = 7.25
+                    ex.env.links[-1].inject(*dev.value_updated_packet(2))
+            s.spawn(None, unsol_body, name='env-unsolicited')
         if cfg['flavour'] == 'cf':
             ex.log('call', 'open_link')
             try:
@@ -111,6 +134,14 @@ def exec_c02(cfg, devs):
                 ex.log('ret', 'scf.open_link')
             except Exception as e:  # noqa
                 ex.log('raise', 'scf.open_link', type(e).__name__)
+                if cfg.get('retry'):
+                    # the application tries again at once on the same object
+                    ex.log('call', 'scf.open_link(retry)')
+                    try:
+                        scf.open_link()
+                        ex.log('ret', 'scf.open_link(retry)')
+                    except Exception as e2:  # noqa
+                        ex.log('raise', 'scf.open_link', type(e2).__name__)
             s.lazy_point('user.close', timeout=cfg.get('close_after', 1.0))
             ex.log('call', 'scf.close_link')
             try:
@@ -177,14 +208,45 @@ def _judge(p, cfg, devs, ex, info, dev):
     rp = {'cfg': cfg, 'devs': list(devs)}
     cut = next((i for i, e in enumerate(ev) if e[1] == 'session2'), len(ev))
     ev1, ev2 = ev[:cut], ev[cut + 1:]
+    ev1_all = ev1
+    stale = ''
+    if cfg.get('retry'):
+        # the application retried at once: the grammar clauses are judged on the last attempt of session 1 (the earlier
+        # one ended with the exception that made the application retry); liveness and session 2 are judged as always
+        starts = [i for i, e in enumerate(ev1) if e[1] == 'cb' and e[2] == 'connection_requested']
+        if len(starts) > 1:
+            sp = starts[-1] - 1 if starts[-1] > 0 and ev1[starts[-1] - 1][1] == 'call' else starts[-1]
+            # a thread still inside the error path of the failed attempt when the application retries keeps delivering
+            # that attempt's notifications: they belong to the failed attempt, not to the new one
+            old_err = set()
+            for e in ev1[:sp]:
+                if e[1] == 'errpath_begin':
+                    old_err.add(e[2])
+                elif e[1] == 'errpath_end':
+                    old_err.discard(e[2])
+            # did the dispatcher hold a packet of the failed attempt's link when the application retried?
+            lastrx = [e for e in ev1[:sp] if e[1] in ('rx', 'rxwait')][-1:]
+            # (in its hands already, or taken from that link's queue afterwards - it was blocked in its receive call)
+            old_links = set(e[2] for e in ev1[:sp] if e[1] in ('rx', 'rxwait'))
+            new_links = set(e[2] for e in ev1[sp:] if e[1] == 'rxwait') - old_links
+            late_old = any(e[1] == 'rx' and e[2] in old_links and e[2] not in new_links for e in ev1[sp:])
+            stale = ':dispatcher_held_packet_of_failed_attempt' if (lastrx and lastrx[0][1] == 'rx') or late_old else ''
+            keep = []
+            for e in ev1[sp:]:
+                if e[1] == 'errpath_end':
+                    old_err.discard(e[2])
+                if old_err and ((e[1] == 'cb' and e[3] in old_err) or (e[1] == 'disc_begin' and e[2] in old_err)):
+                    continue
+                keep.append(e)
+            ev1 = keep
     cbs1 = [(e[2], e[3]) for e in ev1 if e[1] == 'cb']
     names1 = [c[0] for c in cbs1]
-    trace = [(e[1], e[2]) + tuple(e[3:4]) for e in ev1 if e[1] not in ('rx', 'reg')]
+    trace = [(e[1], e[2]) + tuple(e[3:4]) for e in ev1_all if e[1] not in ('rx', 'rxwait', 'reg', 'errpath_begin', 'errpath_end')]
     when_close_early = any(l == 'user.close' for (_, a, l) in ex.ch.taken)
 
     def viol(clause, what):
-        p.violation('life:%s|%s|%s' % (clause, cfg['flavour'], fclass),
-                    '%s devs=%r [%s]: %s; session-1 trace: %r' % (cname, devs, fclass, what, trace[-14:]), rp)
+        p.violation('life:%s%s|%s|%s' % (clause, stale, cfg['flavour'], fclass),
+                    '%s devs=%r [%s]: %s; session-1 trace: %r' % (cname, devs, fclass, what, trace[-(24 if cfg.get('retry') else 14):]), rp)
 
     outcome = (s.status, tuple(names1), bool(s.died))
     p.case(key=(cname, tuple(devs)), nontrivial=bool(devs), outcome=outcome,
@@ -350,6 +412,9 @@ def configs(quick):
         _cfg('cf:p10:hello', 'cf', 10, send_fault=True, nlog=0, nparam=1, hello=True),
         _cfg('cf:p10:hello:eager', 'cf', 10, send_fault=True, nlog=0, nparam=1, hello=True, eager=True),
         _cfg('scf:p10:hello:eager', 'scf', 10, send_fault=True, nlog=0, nparam=1, hello=True, eager=True),
+        _cfg('cf:p10:unsol', 'cf', 10, unsol=True, driver_fault=False, send_fault=False),
+        _cfg('scf:p10:retry', 'scf', 10, nlog=0, nparam=1, retry=True),
+        _cfg('scf:p10:retry:handoff', 'scf', 10, nlog=0, nparam=1, retry=True, policy='handoff'),
         _cfg('cf:p10:hello:handoff', 'cf', 10, send_fault=True, nlog=0, nparam=1, hello=True, policy='handoff'),
         _cfg('scf:p10:handoff', 'scf', 10, send_fault=True, nlog=0, nparam=1, policy='handoff'),
     ]
